@@ -4,6 +4,10 @@ cd "$(dirname "$0")/.."
 ROOT=$(pwd)
 export GOFLAGS=-mod=mod GOPROXY=off VERIF_ROOT=$ROOT
 (cd lean && lake build >/dev/null 2>&1)
+# the harness is built once, against /repo as it is at this moment: refuse a tree with uncommitted changes (a seeded
+# change applied for an evaluation) and say which commit was built
+git -C /repo diff --quiet || { echo "sweep: /repo has uncommitted changes, not building against it"; exit 2; }
+echo "sweep: harness built against /repo $(git -C /repo rev-parse --short HEAD)"
 (cd harness && sort -u go.sum.own /repo/go.sum > go.sum && go build -tags verif -o bin/ ./cmd/...) || exit 2
 for seed in ${SEEDS:-101 102 103 104 105 106}; do
   for mode in ${MODES:-all nodefuzz mixed snap figure8 asynccrash single zero converge}; do
